@@ -18,6 +18,10 @@ C07 line-protocol driver (fields separated by one space; byte strings hex, `-` =
           outcome = notfound | passthru | forbidden | error | unavailable | redirect
                   | file <hexpath> <id> | listing <hexpath> <hexname,… or .>
                   | sidecar <hexpath> <id> <hexenc>
+  pair <fault> <serve fields A> // <serve fields B>
+        fault         t | w<k>: request A's listing is rendered but not delivered (failing template /
+                      client connection fails after k bytes); then B is served by another instance
+        → B's serve answer (Props.browse_history_independent)
   matchfile <cwd> <root> <tries> <fallback> <path> <tree>
         tries         `.` | pre:use:suf;…   (hex, 0/1, hex)
         → nomatch | <trace>   or   match <abs> <rel> file|directory | <trace>
@@ -161,6 +165,28 @@ def handleServe (cwd root hide index flags path orig tree pre enc : String) : St
     | _, _, _, _, _, _, _, _ => "bad-op")
   | _, _ => "bad-op"
 
+def handleServeFields : List String → String
+  | [cwd, root, hide, index, flags, path, orig, tree] =>
+    handleServe cwd root hide index flags path orig tree "000" "."
+  | [cwd, root, hide, index, flags, path, orig, tree, pre, enc] =>
+    handleServe cwd root hide index flags path orig tree pre enc
+  | _ => "bad-op"
+
+/-- `t` (failing template) or `w<k>` (client takes k bytes), k in canonical decimal -/
+def validFault (s : String) : Bool :=
+  s == "t" ||
+  (match s.toList with
+   | 'w' :: ds => !ds.isEmpty && (match (String.ofList ds).toNat? with
+                                  | some k => toString k == String.ofList ds && k ≤ 1048576
+                                  | none => false)
+   | _ => false)
+
+/-- split the fields of a `pair` case at the single `//` -/
+def splitAtSep (l : List String) : Option (List String × List String) :=
+  match l.span (· ≠ "//") with
+  | (a, _ :: b) => if b.contains "//" then none else some (a, b)
+  | _ => none
+
 def handle : List String → String
   | ["clean", p] =>
     match Hex.decode p with
@@ -178,6 +204,14 @@ def handle : List String → String
     handleServe cwd root hide index flags path orig tree "000" "."
   | ["serve", cwd, root, hide, index, flags, path, orig, tree, pre, enc] =>
     handleServe cwd root hide index flags path orig tree pre enc
+  | "pair" :: fault :: rest =>
+    -- a faulted browse request A, then request B on another instance; by
+    -- `Props.browse_history_independent` the answer is B's own answer
+    if !validFault fault then "bad-op" else
+    match splitAtSep rest with
+    | some (a, b) =>
+      if handleServeFields a = "bad-op" then "bad-op" else handleServeFields b
+    | none => "bad-op"
   | ["matchfile", cwd, root, tries, fb, path, tree] =>
     match Hex.decode cwd, Hex.decode root, parseTries tries, fb.toList.mapM parseBit, Hex.decode path, parseTree tree with
     | some cwd, some root, some tries, some [fb], some path, some tree =>
